@@ -57,6 +57,7 @@ func Harness_C17_agreement() {
 	la, lb := verifPerm(n, k1), verifPerm(n, k2)
 	a, changeA := VerifNewSharder(la[0], la)
 	b, _ := VerifNewSharder(lb[len(lb)-1], lb)
+	zz.SearchOnReplay("traceID") // the hash of the ID is an uninterpreted function in the engine
 	id := zz.NondetStringN("traceID", 2)
 	oa, ob := a.WhichShard(id), b.WhichShard(id)
 	zz.Assert(oa.GetAddress() == ob.GetAddress(), "nodes with the same peer list in any order compute the same owner")
